@@ -151,6 +151,16 @@ def scenarios(pid):
                                           lambda: M.from_hex('F2 01 02')]
         sc['from_bytes/valid+invalid'] = [lambda: M.from_bytes([0xe1, 1, 2]), lambda: M.from_bytes([0xe1, 200, 2]),
                                           lambda: M.from_bytes([0xe1, 7])]
+    if pid in ('C04', 'C05', 'C06'):
+        # two parsers that have nothing to do with each other, used by two threads at once
+        sc['parse/two-parsers'] = [lambda: mido.parse_all([0x90, 1, 2, 0x90, 3, 4]), lambda: mido.parse_all([0x90, 5, 6, 0x90, 7, 8])]
+        sc['parse/two-parsers-sysex'] = [lambda: mido.parse_all([0xf0, 1, 2, 0xf7, 0xe0, 1, 2]),
+                                         lambda: mido.parse_all([0xf0, 9, 0xf7, 0xe0, 3, 4]), lambda: mido.parse([0xf2, 5, 6])]
+    if pid == 'C03':
+        sc['checks/same-type'] = [lambda: M('control_change', channel=1, control=2, value=999), lambda: M('control_change', value=3),
+                                  lambda: M('control_change', control=999)]
+        sc['checks/copy+assign'] = [lambda: M('note_on').copy(velocity=128), lambda: setattr(M('note_on'), 'note', 128),
+                                    lambda: M.from_dict({'type': 'note_on', 'channel': 16})]
     if pid == 'C01':
         a, b = M('pitchwheel', channel=2, pitch=-1), M('pitchwheel', channel=2, pitch=-2)
         s1, s2 = M('sysex', data=(1, 2, 3)), M('sysex', data=(9,))
@@ -223,6 +233,10 @@ def replay(case):
 # possible at all.
 
 FIRST_USE = {
+    'C03': {'first-use/checks': "[lambda: M('control_change', channel=1, control=2, value=999), lambda: M('control_change', value=3), "
+                                "lambda: M('control_change', control=999)]",
+            'first-use/checks-sysex': "[lambda: M('sysex', data=(1, 128)), lambda: M('sysex', data=(1, 2)), lambda: M('pitchwheel', pitch=9000)]"},
+    'C04': {'first-use/two-parsers': "[lambda: mido.parse_all([0x90, 1, 2, 0x90, 3, 4]), lambda: mido.parse_all([0x90, 5, 6, 0x90, 7, 8])]"},
     'C02': {'first-use/pitchwheel+sysex': "[lambda: M.from_bytes([0xe5, 1, 2]), lambda: M.from_bytes([0xef, 0x7f, 0x7f]), "
                                           "lambda: M.from_bytes([0xf0, 1, 0xf7])]",
             'first-use/songpos+quarter_frame': "[lambda: M.from_bytes([0xf2, 1, 2]), lambda: M.from_bytes([0xf1, 0x35]), "
@@ -268,7 +282,7 @@ def first_use(ctx, pid, limit=40):
     mido = core.import_mido()
     M, MM = mido.Message, mido.MetaMessage
     for name, src in sorted(FIRST_USE.get(pid, {}).items()):
-        expected = json.loads(json.dumps([call(th) for th in eval(src, {'M': M, 'MM': MM})]))
+        expected = json.loads(json.dumps([call(th) for th in eval(src, {'M': M, 'MM': MM, 'mido': mido})]))
         root = _fresh_run(src, [])
         ch = root['choices']
         sched = [c[0] for c in ch]
@@ -296,6 +310,6 @@ def replay_first_use(case):
     mido = core.import_mido()
     M, MM = mido.Message, mido.MetaMessage
     src = FIRST_USE[case['pid']][case['name']]
-    expected = json.loads(json.dumps([call(th) for th in eval(src, {'M': M, 'MM': MM})]))
+    expected = json.loads(json.dumps([call(th) for th in eval(src, {'M': M, 'MM': MM, 'mido': mido})]))
     got = _fresh_run(src, case['schedule'])['results']
     return None if got == expected else 'fresh process: calls returned %r, alone they return %r' % (got, expected)
